@@ -322,7 +322,8 @@ ValidPulse(cfg, P) ==
   ELSE IF P.av > 0 /\ P.av < cfg.minAvg THEN "VE"
   ELSE "ok"
 
-Measured(st) == st.meas # ""
+(* Sequence.is_measured(): the stored measurement once the sequence is parametrized *)
+Measured(st) == IF st.bld THEN st.meas # "" ELSE st.pm # ""
 Protocols == {"min-delay", "no-delay", "wait-for-all"}
 
 (* Sequence._validate_channel *)
@@ -545,8 +546,16 @@ Measure(st, basis) ==
        IF basis \notin avail THEN Err(st, "VE")
        ELSE Ok([st EXCEPT !.meas = basis, !.lg = Append(@, "measure")])
 
+(* Sequence.get_duration(channel): read-only, refused (screen) once parametrized *)
+GetDuration(st, nm) ==
+  IF ~st.bld THEN Err(st, "RE")
+  ELSE IF ChIdx(st, nm) = 0 THEN Err(st, "VE")
+  ELSE OkR(st, ChanDur(st.ch[ChIdx(st, nm)]))
+
 (* Sequence.available_channels restricted to one id *)
-Occupied(st, cid) == \E j \in 1..Len(st.ch) : st.ch[j].cid = cid
+(* DMM ids whose configuration is only stored (parametrized sequence) count as declared *)
+StoredDmmCids(st) == {st.tb[k][2] : k \in {x \in 1..Len(st.tb) : st.tb[x][1] = "detmap"}}
+Occupied(st, cid) == (\E j \in 1..Len(st.ch) : st.ch[j].cid = cid) \/ cid \in StoredDmmCids(st)
 Avail(st, cid) ==
   LET D == DevOf(st)
       cfg == D.chs[cid]
@@ -696,6 +705,16 @@ MagField(st, zero) ==
   ELSE IF zero THEN Err(st, "VE")
   ELSE Ok([st EXCEPT !.mode = "xy", !.lg = Append(@, "set_magnetic_field")])
 
+(* target() of a parametrized sequence on a just-declared local channel (used by *)
+(* declare_channel for its initial target): validated, then stored              *)
+TemplateTarget(st, nm, tg) ==
+  LET cfg == CfgOf(st, ChIdx(st, nm))
+      nq == NQ(st)
+      cnt == Cardinality({q \in 1..nq : HasBit(tg, q)}) + (IF tg > AllMask(nq) THEN 1 ELSE 0)
+  IN IF cfg.maxTg # -1 /\ cnt > cfg.maxTg THEN Err(st, "VE")
+     ELSE IF tg > AllMask(nq) THEN Err(st, "VE")
+     ELSE Ok([st EXCEPT !.tb = Append(@, <<"target", nm>>)])
+
 (* Sequence.declare_channel; it = initial target mask, 0 = None *)
 Declare(st, nm, cid, it) ==
   IF Measured(st) THEN Err(st, "RE")
@@ -722,7 +741,9 @@ Declare(st, nm, cid, it) ==
       i == Len(st3.ch)
       r == IF cfg.addr = "G"
            THEN Ok([st3 EXCEPT !.ch[i].sl = <<TSlot(-1, 0, AllMask(nq))>>])
-           ELSE IF it # 0 THEN TargetCore(st3, nm, it)
+           ELSE IF it # 0
+           THEN (IF st3.bld THEN TargetCore(st3, nm, it)
+                 ELSE TemplateTarget(st3, nm, it))     \* stored as a public target() call
            ELSE Ok(st3)
   IN IF r.out = "ok" THEN Ok([r.st EXCEPT !.lg = Append(@, "declare_channel")]) ELSE r
 
@@ -884,9 +905,10 @@ AddEomPulse(st, nm, dur, ph, pps, proto, cpd) ==
      THEN Ok([r.st EXCEPT !.empty = FALSE, !.lg = Append(@, "add_eom_pulse")]) ELSE r
 
 -----------------------------------------------------------------------------
-(* Dispatcher: one call of the public API *)
-Step(st, c) ==
+(* Dispatcher: one call of the public API on a sequence that is being built *)
+StepB(st, c) ==
   CASE c.op = "declare"  -> Declare(st, c.nm, c.cid, c.it)
+    [] c.op = "getdur"   -> GetDuration(st, c.nm)
     [] c.op = "target"   -> Target(st, c.nm, c.tg)
     [] c.op = "delay"    -> Delay(st, c.nm, c.d, c.rest)
     [] c.op = "add"      -> Add(st, c.nm, c.p, c.proto)
@@ -905,7 +927,134 @@ Step(st, c) ==
 
 Init0(d) == [dev |-> d, mode |-> "none", meas |-> "", empty |-> TRUE,
              slmDmm |-> 0, slmNm |-> 0, slmTg |-> 0,
-             ch |-> <<>>, rf |-> <<>>, lg |-> <<>>]
+             ch |-> <<>>, rf |-> <<>>, lg |-> <<>>,
+             bld |-> TRUE, tb |-> <<>>, pm |-> ""]
+
+-----------------------------------------------------------------------------
+(* Parametrized ("template") mode: from the first call that uses a variable  *)
+(* (seq_decorators.verify_variable clears _building BEFORE anything else),   *)
+(* the decorated building calls are only validated lightly and stored in     *)
+(* _to_build_calls; declare_channel and set_magnetic_field still execute.    *)
+(* st.tb = stored calls as <<op, channel name or 0>> (what is_in_eom_mode and *)
+(* declared_channels scan); a call record with par = TRUE has its validated   *)
+(* arguments given as variable expressions.                                   *)
+IsPar(c) == "par" \in DOMAIN c /\ c.par
+TbOf(c) == <<c.op, IF "nm" \in DOMAIN c THEN c.nm ELSE IF c.op = "detmap" THEN c.cid ELSE 0>>
+Stored(st, c) == [st EXCEPT !.tb = Append(@, TbOf(c))]
+
+(* Sequence.is_in_eom_mode of a parametrized sequence: the latest stored enable/disable *)
+InEomT(st, nm) ==
+  LET E == {k \in 1..Len(st.tb) : st.tb[k][2] = nm /\ st.tb[k][1] \in {"eom_on", "eom_off"}}
+      i == ChIdx(st, nm)
+  IN IF E = {} THEN (i # 0 /\ InEom(st.ch[i]))
+     ELSE st.tb[CHOOSE k \in E : \A l \in E : l <= k][1] = "eom_on"
+
+(* declared_channels: the schedule plus the DMMs whose configuration is stored *)
+DeclaredT(st, nm) ==
+  \/ ChIdx(st, nm) # 0
+  \/ \E cid \in StoredDmmCids(st) : nm = 100 + DmmOrdinal(DevOf(st), cid)
+CfgOfNameT(st, nm) ==
+  IF ChIdx(st, nm) # 0 THEN CfgOf(st, ChIdx(st, nm))
+  ELSE DevOf(st).chs[CHOOSE cid \in StoredDmmCids(st) : nm = 100 + DmmOrdinal(DevOf(st), cid)]
+
+ValidChanT(st, nm, blockEom) ==
+  IF ~DeclaredT(st, nm) THEN "VE"
+  ELSE IF blockEom /\ InEomT(st, nm) THEN "RE"
+  ELSE "ok"
+
+TemplateStep(st, c) ==
+  LET M == Measured(st) IN
+  CASE c.op \in {"declare", "magfield"} -> StepB(st, c)
+    [] c.op = "getdur" -> Err(st, "RE")
+    [] c.op = "est" ->
+         \* _validate_channel and the protocol check come first, then "can't compute ... parametrized"
+         Err(st, "VE")
+    [] c.op = "target" ->
+         IF M THEN Err(st, "RE")
+         ELSE LET vc == ValidChanT(st, c.nm, TRUE) IN
+         IF vc # "ok" THEN Err(st, vc)
+         ELSE LET cfg == CfgOfNameT(st, c.nm)
+                  nq == NQ(st)
+              IN
+              IF c.tg = 0 THEN Err(st, "VE")
+              ELSE IF cfg.addr # "L" THEN Err(st, "VE")
+              ELSE IF cfg.maxTg # -1 /\ PopCount(c.tg, nq) + (IF c.tg > AllMask(nq) THEN 1 ELSE 0) > cfg.maxTg
+                   THEN Err(st, "VE")
+              ELSE IF c.tg > AllMask(nq) THEN Err(st, "VE")
+              ELSE Ok(Stored(st, c))
+    [] c.op = "delay" ->
+         IF M THEN Err(st, "RE")
+         ELSE IF ValidChanT(st, c.nm, FALSE) # "ok" THEN Err(st, "VE")
+         ELSE Ok(Stored(st, c))
+    [] c.op = "add" ->
+         IF M THEN Err(st, "RE")
+         ELSE LET vc == ValidChanT(st, c.nm, TRUE) IN
+         IF vc # "ok" THEN Err(st, vc)
+         ELSE LET cfg == CfgOfNameT(st, c.nm) IN
+              IF cfg.kind = "dmm" THEN Err(st, "VE")
+              ELSE IF c.proto \notin Protocols THEN Err(st, "VE")
+              ELSE IF IsPar(c) THEN Ok([Stored(st, c) EXCEPT !.empty = FALSE])
+              ELSE LET P == Pulses[c.p]
+                       v == VDur(cfg, P.dur)
+                   IN IF ValidPulse(cfg, P) # "ok" THEN Err(st, "VE")
+                      ELSE IF v.out # "ok" THEN Err(st, v.out)
+                      ELSE IF v.v # P.dur /\ ~P.rs THEN Err(st, "TE")
+                      ELSE Ok([Stored(st, c) EXCEPT !.empty = FALSE])
+    [] c.op = "eom_on" ->
+         IF M THEN Err(st, "RE")
+         ELSE IF ValidChanT(st, c.nm, FALSE) # "ok" THEN Err(st, "VE")
+         ELSE IF InEomT(st, c.nm) THEN Err(st, "RE")
+         ELSE LET cfg == CfgOfNameT(st, c.nm) IN
+              IF ~cfg.eom THEN Err(st, "TE")
+              ELSE IF ~IsPar(c) /\ SP[st.dev][st.ch[ChIdx(st, c.nm)].cid][c.sp].out # "ok"
+                   THEN Err(st, SP[st.dev][st.ch[ChIdx(st, c.nm)].cid][c.sp].out)
+              ELSE Ok(Stored(st, c))
+    [] c.op = "eom_mod" ->
+         IF M THEN Err(st, "RE")
+         ELSE IF ValidChanT(st, c.nm, FALSE) # "ok" THEN Err(st, "VE")
+         ELSE IF ~InEomT(st, c.nm) THEN Err(st, "RE")
+         ELSE IF ~IsPar(c) /\ SP[st.dev][st.ch[ChIdx(st, c.nm)].cid][c.sp].out # "ok"
+              THEN Err(st, SP[st.dev][st.ch[ChIdx(st, c.nm)].cid][c.sp].out)
+         ELSE Ok(Stored(st, c))
+    [] c.op = "eom_off" ->
+         IF M THEN Err(st, "RE")
+         ELSE IF ValidChanT(st, c.nm, FALSE) # "ok" THEN Err(st, "VE")
+         ELSE IF ~InEomT(st, c.nm) THEN Err(st, "RE")
+         ELSE Ok(Stored(st, c))
+    [] c.op = "eom_add" ->
+         IF M THEN Err(st, "RE")
+         ELSE IF ValidChanT(st, c.nm, FALSE) # "ok" THEN Err(st, "VE")
+         ELSE IF ~InEomT(st, c.nm) THEN Err(st, "RE")
+         ELSE IF c.proto \notin Protocols THEN Err(st, "VE")
+         ELSE IF ~IsPar(c) /\ VDur(CfgOfNameT(st, c.nm), c.dur).out # "ok" THEN Err(st, "VE")
+         ELSE Ok([Stored(st, c) EXCEPT !.empty = FALSE])
+    [] c.op = "align" ->
+         IF M THEN Err(st, "RE")
+         ELSE IF \E k \in 1..Len(c.nms) : ChIdx(st, c.nms[k]) = 0 THEN Err(st, "VE")
+         ELSE IF \E k, l \in 1..Len(c.nms) : k # l /\ c.nms[k] = c.nms[l] THEN Err(st, "VE")
+         ELSE IF Len(c.nms) < 2 THEN Err(st, "VE")
+         ELSE Ok(Stored(st, c))
+    [] c.op = "measure" ->
+         IF M THEN Err(st, "RE")
+         ELSE LET avail == IF st.mode = "xy" THEN {"XY"} ELSE SupportedBases(st) \ {"XY"} IN
+              IF c.basis \notin avail THEN Err(st, "VE")
+              ELSE Ok([Stored(st, c) EXCEPT !.pm = c.basis])
+    [] c.op = "pshift" ->
+         IF RefIdx(st, c.basis) = 0 THEN Err(st, "VE")
+         ELSE IF c.tg > AllMask(NQ(st)) THEN Err(st, "VE")
+         ELSE Ok(Stored(st, c))
+    [] c.op = "detmap" ->
+         IF M THEN Err(st, "RE")
+         ELSE IF DmmChecks(st, c.cid) # "ok" THEN Err(st, "VE")
+         ELSE IF st.slmDmm # 0 THEN Assert(FALSE, "SLM mask + parametrized detuning map: outside the model")
+         ELSE Ok(Stored([st EXCEPT !.mode = "ising"], c))
+    [] OTHER -> Assert(FALSE, <<"operation outside the template-mode model", c.op>>)
+
+(* One public call: verify_variable first clears _building when the call uses a variable *)
+Step(st, c) ==
+  LET storedOp == c.op \notin {"declare", "magfield", "getdur", "est"}
+      st1 == IF IsPar(c) /\ storedOp THEN [st EXCEPT !.bld = FALSE] ELSE st
+  IN IF st1.bld THEN StepB(st1, c) ELSE TemplateStep(st1, c)
 
 (* Replay of a list of calls (indices into Calls) from the initial state *)
 RECURSIVE ReplayFrom(_, _, _)
